@@ -24,8 +24,8 @@ open Ural Ural.Py Ural.UrlParts Ural.Quote Ural.Canonicalize Ural.Normpath
 /-- embedded control characters never change the result: the cleaning pass depends on the
 input only through its control-stripped form -/
 theorem clean_control_irrelevant (u v dp : Str) (h : stripControl u = stripControl v) :
-    cleanUrl u dp = cleanUrl v dp := by
-  simp [cleanUrl, h]
+    Canonicalize.cleanUrl u dp = Canonicalize.cleanUrl v dp := by
+  simp [Canonicalize.cleanUrl, h]
 
 /-- inserting a control character anywhere is such a change -/
 theorem stripControl_insert (a b : Str) (c : Char) (hc : isControlChar c = true) :
@@ -77,7 +77,7 @@ theorem strip_surrounding (ws1 ws2 s : Str) (h1 : ws1.all isSpace = true)
 theorem canon_default_port (puny : Str → Str) (quoted sf : Bool) (p : Parsed) (n : Nat)
     (h : defaultPort p.scheme = some n) :
     canonComps puny quoted sf { p with port := some n } = canonComps puny quoted sf { p with port := none } := by
-  simp [canonComps, h]
+  simp [canonComps, h, hasMore, hostEndsUrl, portRule]
 
 /-- the hex-digit case of escapes never changes the result: `upper_quoted` (applied to the
 whole URL before anything else) sends two strings whose scans differ only in the case of hex
@@ -147,7 +147,7 @@ the correspondence stream (`path_hyp` line). -/
 /-- the `path` field of the result is `pathOut` of the input path -/
 theorem comps_path (puny : Str → Str) (quoted sf : Bool) (p : Parsed) :
     (canonComps puny quoted sf p).path =
-      pathOut quoted p.path (!p.query.isEmpty || truthy (if sf then none else some p.fragment)) := by
+      pathOut quoted p.path (hasMore puny sf p) := by
   simp only [canonComps, pathOut]
 
 /-- **path idempotence**: the path rule applied to its own result (whatever the "query or
